@@ -29,6 +29,11 @@ import (
 // proxy CoreState under the runtime) and the canonical state, so that
 // `denied ⇒ state not even reached`, `failed ⇒ untouched` and owner stamping are visible.
 // Compared with Cosi.Model.Access.exec (model) and Cosi.Spec.Access.exec (spec).
+//
+// WHICH declaration the guards read (Cosi.Model.AccessDecl): the probe keeps its declarations in buffers it
+// owns (accBufs) — with `retain=1` its Inputs() / Outputs() / Settings() hand out those very slices —, rewrites
+// them (`bufw`), passes them to UpdateInputs (`setinputs b= n=`: accepted, or rejected for queue kinds / duplicate
+// keys) and then tries the calls again: the property's declared sets are the ones the runtime ACCEPTED.
 
 func init() { Register("access", func() Engine { return &accEng{} }) }
 
@@ -115,56 +120,105 @@ type accReply struct {
 }
 
 // accServe executes scripted calls through the handle until the context ends.
-func accServe(ctx context.Context, rw controller.QRuntime, full controller.Runtime, events <-chan controller.ReconcileEvent, reqs <-chan accReq, inner state.CoreState) {
+func accServe(ctx context.Context, rw controller.QRuntime, full controller.Runtime, events <-chan controller.ReconcileEvent, reqs <-chan accReq, inner state.CoreState, bufs *accBufs) {
 	for {
 		select {
 		case <-ctx.Done():
 			return
 		case <-events:
 		case rq := <-reqs:
-			rq.reply <- accDo(ctx, rw, full, rq.line, inner)
+			rq.reply <- accDo(ctx, rw, full, rq.line, inner, bufs)
 		}
 	}
 }
 
+// accBufCap is the capacity of the probe's declaration buffers (the generator stays below it).
+const accBufCap = 16
+
+// accBufs is the memory the probe controller keeps its declarations in: two input buffers (0 holds the
+// initial inputs) and one output buffer. With retain the runtime is handed these very slices, else copies.
+type accBufs struct {
+	in     [2][]controller.Input
+	out    []controller.Output
+	n0, m0 int // lengths of the initial declaration
+	retain bool
+}
+
+func newAccBufs(ins []controller.Input, outs []controller.Output, retain bool) *accBufs {
+	b := &accBufs{n0: len(ins), m0: len(outs), retain: retain}
+	b.in[0] = append(make([]controller.Input, 0, accBufCap), ins...)
+	b.in[1] = make([]controller.Input, 0, accBufCap)
+	b.out = append(make([]controller.Output, 0, accBufCap), outs...)
+
+	return b
+}
+
+func (b *accBufs) inputs() []controller.Input {
+	if b.retain {
+		return b.in[0][:b.n0]
+	}
+
+	return append([]controller.Input{}, b.in[0][:b.n0]...)
+}
+
+func (b *accBufs) outputs() []controller.Output {
+	if b.retain {
+		return b.out[:b.m0]
+	}
+
+	return append([]controller.Output{}, b.out[:b.m0]...)
+}
+
+// accOverwrite is `copy(buf[at:], vs)` growing the slice inside its capacity (at beyond the length appends).
+func accOverwrite[T any](buf []T, at int, vs []T) []T {
+	at = min(at, len(buf))
+	vs = vs[:min(len(vs), cap(buf)-at)]
+
+	if at+len(vs) > len(buf) {
+		buf = buf[:at+len(vs)]
+	}
+
+	copy(buf[at:], vs)
+
+	return buf
+}
+
 // accProbeR is a controller.Controller.
 type accProbeR struct {
-	inputs  []controller.Input
-	outputs []controller.Output
-	reqs    chan accReq
-	inner   state.CoreState
+	bufs  *accBufs
+	reqs  chan accReq
+	inner state.CoreState
 }
 
 func (p *accProbeR) Name() string                 { return accName }
-func (p *accProbeR) Inputs() []controller.Input   { return append([]controller.Input{}, p.inputs...) }
-func (p *accProbeR) Outputs() []controller.Output { return append([]controller.Output{}, p.outputs...) }
+func (p *accProbeR) Inputs() []controller.Input   { return p.bufs.inputs() }
+func (p *accProbeR) Outputs() []controller.Output { return p.bufs.outputs() }
 
 func (p *accProbeR) Run(ctx context.Context, r controller.Runtime, _ *zap.Logger) error {
-	accServe(ctx, r, r, r.EventCh(), p.reqs, p.inner)
+	accServe(ctx, r, r, r.EventCh(), p.reqs, p.inner, p.bufs)
 
 	return nil
 }
 
 // accProbeQ is a controller.QController serving either from its RunHook or from inside Reconcile.
 type accProbeQ struct {
-	inputs  []controller.Input
-	outputs []controller.Output
-	via     string
-	reqs    chan accReq
-	inner   state.CoreState
+	bufs  *accBufs
+	via   string
+	reqs  chan accReq
+	inner state.CoreState
 }
 
 func (p *accProbeQ) Name() string { return accName }
 
 func (p *accProbeQ) Settings() controller.QSettings {
 	s := controller.QSettings{
-		Inputs:  append([]controller.Input{}, p.inputs...),
-		Outputs: append([]controller.Output{}, p.outputs...),
+		Inputs:  p.bufs.inputs(),
+		Outputs: p.bufs.outputs(),
 	}
 
 	if p.via == "hook" {
 		s.RunHook = func(ctx context.Context, _ *zap.Logger, r controller.QRuntime) error {
-			accServe(ctx, r, nil, nil, p.reqs, p.inner)
+			accServe(ctx, r, nil, nil, p.reqs, p.inner, p.bufs)
 
 			return nil
 		}
@@ -175,7 +229,7 @@ func (p *accProbeQ) Settings() controller.QSettings {
 
 func (p *accProbeQ) Reconcile(ctx context.Context, _ *zap.Logger, r controller.QRuntime, ptr resource.Pointer) error {
 	if p.via == "reconcile" && ptr.Namespace() == accTrigNS && ptr.Type() == accTrigTyp {
-		accServe(ctx, r, nil, nil, p.reqs, p.inner)
+		accServe(ctx, r, nil, nil, p.reqs, p.inner, p.bufs)
 	}
 
 	return nil
@@ -210,7 +264,7 @@ func accOwnOpt(s string) []controller.DeleteOption {
 
 // accDo performs one call through the runtime handle (full is nil for a QController:
 // controller.QRuntime has neither UpdateInputs nor output tracking).
-func accDo(ctx context.Context, rw controller.QRuntime, full controller.Runtime, line string, inner state.CoreState) (rep accReply) {
+func accDo(ctx context.Context, rw controller.QRuntime, full controller.Runtime, line string, inner state.CoreState, bufs *accBufs) (rep accReply) {
 	defer func() {
 		if r := recover(); r != nil {
 			rep = accReply{out: fmt.Sprintf("PANIC %v", r)}
@@ -350,7 +404,22 @@ func accDo(ctx context.Context, rw controller.QRuntime, full controller.Runtime,
 			return out("unsupported")
 		}
 
+		if _, ok := a["b"]; ok { // the controller passes (a prefix of) one of the buffers it keeps
+			buf := bufs.in[a.Int("b")%2]
+
+			return plain(full.UpdateInputs(buf[:min(a.Int("n"), len(buf))]))
+		}
+
 		return plain(full.UpdateInputs(parseInputToks(a["in"])))
+	case "bufw": // the controller rewrites its own memory; no runtime call
+		if a["what"] == "out" {
+			bufs.out = accOverwrite(bufs.out, a.Int("at"), parseOutputToks(a["v"]))
+		} else {
+			k := a.Int("b") % 2
+			bufs.in[k] = accOverwrite(bufs.in[k], a.Int("at"), parseInputToks(a["v"]))
+		}
+
+		return out("ok")
 	case "track":
 		if full == nil {
 			return out("unsupported")
@@ -447,10 +516,12 @@ func accExec(t *testing.T, c Case) []string {
 			}
 		}
 
+		bufs := newAccBufs(ins, os, hd["retain"] == "1")
+
 		if hd["flavour"] == "q" {
-			err = rt.RegisterQController(&accProbeQ{inputs: ins, outputs: os, via: hd["via"], reqs: reqs, inner: inner})
+			err = rt.RegisterQController(&accProbeQ{bufs: bufs, via: hd["via"], reqs: reqs, inner: inner})
 		} else {
-			err = rt.RegisterController(&accProbeR{inputs: ins, outputs: os, reqs: reqs, inner: inner})
+			err = rt.RegisterController(&accProbeR{bufs: bufs, reqs: reqs, inner: inner})
 		}
 
 		regErr := err
@@ -536,7 +607,7 @@ func accExec(t *testing.T, c Case) []string {
 					}
 
 					calls := proxy.take()
-					if op == "setinputs" || op == "track" {
+					if op == "setinputs" || op == "track" || op == "bufw" {
 						calls = "-"
 					}
 
@@ -578,7 +649,7 @@ func (*accEng) Cases(thorough bool) int {
 }
 
 func (*accEng) Rule() string {
-	return "corpus = the complete matrix {Controller, QController(hook|reconcile)} x {uncached, cached} x 16 target relations (kind-wide / by-ID input of each of the 6 kinds, other id, other namespace, exclusive / shared / input+output type, output type in another namespace, undeclared) x 6 stored states (own, foreign, unowned, absent, own+tearing-down+finalizer, foreign+tearing-down) x 23 call variants (13 methods x applicable owner options: default / no-owner / explicit owner B / explicit empty owner); generated = random declarations, cached sets, environment writes, calls and UpdateInputs; non-trivial = at least one denied-or-failed call, one successful write and one successful read; distinct by hash of the op lines"
+	return "corpus = the complete matrix {Controller, QController(hook|reconcile)} x {uncached, cached} x 16 target relations (kind-wide / by-ID input of each of the 6 kinds, other id, other namespace, exclusive / shared / input+output type, output type in another namespace, undeclared) x 6 stored states (own, foreign, unowned, absent, own+tearing-down+finalizer, foreign+tearing-down) x 23 call variants (13 methods x applicable owner options: default / no-owner / explicit owner B / explicit empty owner); plus the declared-buffers scenarios (a controller that keeps its declarations in buffers it rewrites, with accepted and rejected UpdateInputs in between, for both flavours); generated = random declarations (handed to the runtime as the probe's own buffers or as copies), cached sets, environment writes, calls, UpdateInputs with fresh slices and with buffer prefixes — valid, with kinds of the other flavour, with duplicate keys — and rewrites of the buffers; non-trivial = at least one denied-or-failed call, one successful write and one successful read; distinct by hash of the op lines"
 }
 
 func (*accEng) NonTrivial(c Case, out []string) bool {
@@ -586,7 +657,7 @@ func (*accEng) NonTrivial(c Case, out []string) bool {
 
 	for i, o := range out {
 		op := opName(c.Ops[i])
-		if strings.HasPrefix(op, "env-") || op == "setinputs" || op == "track" {
+		if strings.HasPrefix(op, "env-") || op == "setinputs" || op == "track" || op == "bufw" {
 			continue
 		}
 
@@ -746,6 +817,69 @@ func (*accEng) Corpus(bool) []Case {
 
 	accMatrixCells = cells
 
+	return append(cases, accDeclCorpus()...)
+}
+
+// accDeclCorpus: the declaration the guards read must be the ACCEPTED one. A controller that keeps its declarations
+// in buffers rewrites them, has the next set rejected (queue kinds, duplicate keys) or accepted, rewrites them again
+// without telling the runtime, and after every step tries a read and a finalizer on each type involved.
+func accDeclCorpus() []Case {
+	var cases []Case
+
+	probeOps := func(t *int, typs ...string) []string {
+		var ops []string
+
+		for _, typ := range typs {
+			for _, v := range []string{"get", "list", "addfin fins=f", "rmfin fins=f", "create powner= spec=n opt=default"} {
+				*t++
+				name, rest, _ := strings.Cut(v, " ")
+				ops = append(ops, strings.TrimSpace(fmt.Sprintf("%s t=%d ns=nA typ=%s id=a %s", name, *t, typ, rest)))
+			}
+		}
+
+		return ops
+	}
+
+	for _, fl := range []struct {
+		flav, via, retain string
+		k                 [3]int // weak-like, strong-like, invalid-for-this-flavour kind
+	}{
+		{"r", "run", "1", [3]int{0, 1, 4}}, {"r", "run", "0", [3]int{0, 1, 3}}, {"q", "hook", "1", [3]int{5, 4, 1}},
+	} {
+		c := Case{Header: fmt.Sprintf("# engine=access flavour=%s via=%s name=%s in=nA/T1/none/%d,nB/T1/none/%d out=T4:0 cached= nss=nA typs=T1,T2,T3,T4 retain=%s cell=declared-buffers",
+			fl.flav, fl.via, accName, fl.k[0], fl.k[0], fl.retain)}
+		t := 0
+
+		for _, typ := range []string{"T1", "T2", "T3"} {
+			t++
+			c.Ops = append(c.Ops, fmt.Sprintf("env-set t=%d ns=nA typ=%s id=a owner=%s phase=running fins= spec=e", t, typ, accForeign))
+		}
+
+		step := func(line string) {
+			t++
+			c.Ops = append(c.Ops, strings.Replace(line, "t=?", fmt.Sprintf("t=%d", t), 1))
+			c.Ops = append(c.Ops, probeOps(&t, "T1", "T2", "T3", "T4")...)
+		}
+
+		c.Ops = append(c.Ops, probeOps(&t, "T1", "T2", "T3", "T4")...)
+		// the next set built in the same buffer: invalid for this flavour, rejected as a whole
+		step(fmt.Sprintf("bufw t=? what=in b=0 at=0 v=nA/T1/none/%d,nA/T2/none/%d", fl.k[2], fl.k[2]))
+		step("setinputs t=? b=0 n=2")
+		// a valid set written into the buffer, not declared
+		step(fmt.Sprintf("bufw t=? what=in b=0 at=0 v=nA/T2/none/%d", fl.k[1]))
+		// … and declared: accepted
+		step("setinputs t=? b=0 n=1")
+		// duplicate keys in the other buffer: rejected after a partial merge
+		step(fmt.Sprintf("bufw t=? what=in b=1 at=0 v=nA/T3/none/%d,nA/T1/none/%d,nA/T3/none/%d", fl.k[1], fl.k[0], fl.k[0]))
+		step("setinputs t=? b=1 n=3")
+		// the buffer that was accepted is rewritten afterwards
+		step(fmt.Sprintf("bufw t=? what=in b=0 at=0 v=nA/T3/none/%d", fl.k[1]))
+		// the output buffer
+		step("bufw t=? what=out b=0 at=0 v=T2:0")
+
+		cases = append(cases, c)
+	}
+
 	return cases
 }
 
@@ -811,20 +945,56 @@ func (e *accEng) Gen(r *Rand, thorough bool, idx int) Case {
 		}
 	}
 
-	c := Case{Header: fmt.Sprintf("# engine=access flavour=%s via=%s name=%s in=%s out=%s cached=%s nss=%s typs=%s case=%d",
+	// retain: the probe hands its own declaration buffers to the runtime (else copies)
+	retain := ""
+	if r.Chance(1, 2) {
+		retain = " retain=1"
+	}
+
+	c := Case{Header: fmt.Sprintf("# engine=access flavour=%s via=%s name=%s in=%s out=%s cached=%s nss=%s typs=%s case=%d%s",
 		flav, via, accName, strings.Join(in, ","), strings.Join(outs, ","), strings.Join(cached, ","),
-		strings.Join(accNS, ","), strings.Join(accTyp, ","), idx)}
+		strings.Join(accNS, ","), strings.Join(accTyp, ","), idx, retain)}
+
+	// every input token that was ever written into a buffer or passed to UpdateInputs: targets are drawn from them
+	pool := append([]string{}, in...)
+
+	// a declaration for a buffer / an UpdateInputs call: mostly valid for the flavour, sometimes with a kind of the
+	// other flavour or with a second input of the same key (both are rejected as a whole)
+	genDecl := func(n int) []string {
+		l := accGenInputs(r, q, n)
+
+		if len(l) > 0 && r.Chance(1, 4) {
+			p := strings.Split(Pick(r, l), "/")
+			k := r.Intn(3)
+
+			if r.Chance(1, 2) != q { // the other flavour's kinds
+				k += 3
+			}
+
+			l = append(l, fmt.Sprintf("%s/%s/%s/%d", p[0], p[1], p[2], k))
+			i := r.Intn(len(l))
+			l[i], l[len(l)-1] = l[len(l)-1], l[i]
+		}
+
+		pool = append(pool, l...)
+
+		return l
+	}
 
 	n := 30
 	if thorough {
 		n = 60
 	}
 
+	// a third of the plain-controller cases are about the declaration itself: the controller keeps rebuilding its
+	// input set in its buffers and (re)declares it, and mostly touches the types it has ever mentioned
+	heavy := !q && idx%3 == 0
+
 	owners := []string{accName, accName, accForeign, ""}
 
 	target := func() (string, string, string) {
-		if len(in) > 0 && r.Chance(1, 2) {
-			p := strings.Split(Pick(r, in), "/")
+		if len(pool) > 0 && (r.Chance(1, 2) || (heavy && r.Chance(1, 2))) {
+			p := strings.Split(Pick(r, pool), "/")
 			if p[0] != accTrigNS {
 				id := Pick(r, accID)
 				if strings.HasPrefix(p[2], "s:") && r.Chance(2, 3) {
@@ -844,9 +1014,44 @@ func (e *accEng) Gen(r *Rand, thorough bool, idx int) Case {
 		return Pick(r, accNS), Pick(r, accTyp), Pick(r, accID)
 	}
 
+	bufwIn := func(i int) string {
+		at := r.Intn(4)
+		if heavy { // mostly inside the prefix that was declared
+			at = Pick(r, []int{0, 0, 0, 1, 1, 2})
+		}
+
+		return fmt.Sprintf("bufw t=%d what=in b=%d at=%d v=%s", i, r.Intn(2), at, strings.Join(genDecl(1+r.Intn(3)), ","))
+	}
+
 	for i := 1; i <= n; i++ {
+		if heavy && r.Chance(1, 3) {
+			switch y := r.Intn(10); {
+			case y < 5:
+				c.Ops = append(c.Ops, bufwIn(i))
+			case y < 8:
+				c.Ops = append(c.Ops, fmt.Sprintf("setinputs t=%d b=%d n=%d", i, r.Intn(2), 1+r.Intn(4)))
+			case y < 9:
+				c.Ops = append(c.Ops, fmt.Sprintf("setinputs t=%d in=%s", i, strings.Join(genDecl(r.Intn(4)), ",")))
+			default:
+				c.Ops = append(c.Ops, fmt.Sprintf("bufw t=%d what=out b=0 at=%d v=%s:%d", i, r.Intn(3), Pick(r, accTyp), r.Intn(2)))
+			}
+
+			continue
+		}
+
 		ns, typ, id := target()
 		at := fmt.Sprintf("t=%d ns=%s typ=%s id=%s", i, ns, typ, id)
+
+		if heavy && r.Chance(1, 2) { // the calls whose guard looks at the inputs
+			switch v := Pick(r, []string{"get", "getu", "list", "listu", "ctx", "addfin", "addfin", "rmfin"}); v {
+			case "addfin", "rmfin":
+				c.Ops = append(c.Ops, fmt.Sprintf("%s %s fins=%s", v, at, Pick(r, []string{"f", "x"})))
+			default:
+				c.Ops = append(c.Ops, v+" "+at)
+			}
+
+			continue
+		}
 
 		switch x := r.Intn(100); {
 		case x < 18:
@@ -859,13 +1064,28 @@ func (e *accEng) Gen(r *Rand, thorough bool, idx int) Case {
 				Pick(r, []string{"running", "running", "running", "tearingDown"}), fins, r.Intn(3)))
 		case x < 22:
 			c.Ops = append(c.Ops, "env-del "+at)
-		case x < 25 && !q:
-			c.Ops = append(c.Ops, fmt.Sprintf("setinputs t=%d in=%s", i, strings.Join(accGenInputs(r, false, r.Intn(5)), ",")))
+		case x < 24 && !q:
+			c.Ops = append(c.Ops, fmt.Sprintf("setinputs t=%d in=%s", i, strings.Join(genDecl(r.Intn(5)), ",")))
 		case x < 27 && !q:
+			c.Ops = append(c.Ops, fmt.Sprintf("setinputs t=%d b=%d n=%d", i, r.Intn(2), r.Intn(5)))
+		case x < 31 && !q:
+			// the controller rewrites the memory it keeps its declarations in (for the queue flavour this is finding D9,
+			// reproduced by ONE corpus case only: the framework reports at most three divergent cases per run)
+			if r.Chance(1, 4) {
+				var os []string
+				for range 1 + r.Intn(2) {
+					os = append(os, fmt.Sprintf("%s:%d", Pick(r, accTyp), r.Intn(2)))
+				}
+
+				c.Ops = append(c.Ops, fmt.Sprintf("bufw t=%d what=out b=0 at=%d v=%s", i, r.Intn(3), strings.Join(os, ",")))
+			} else {
+				c.Ops = append(c.Ops, bufwIn(i))
+			}
+		case x < 33 && !q:
 			c.Ops = append(c.Ops, fmt.Sprintf("track t=%d", i))
-		case x < 30 && !q:
+		case x < 35 && !q:
 			c.Ops = append(c.Ops, fmt.Sprintf("cleanup t=%d ns=%s typ=%s", i, ns, typ))
-		case x < 37:
+		case x < 40:
 			c.Ops = append(c.Ops, Pick(r, []string{"get", "get", "getu", "list", "listu", "ctx"})+" "+at)
 		case x < 47:
 			c.Ops = append(c.Ops, fmt.Sprintf("create %s powner=%s spec=n%d opt=%s", at, Pick(r, []string{"", "", "", accName, accForeign}), r.Intn(3),
